@@ -2,7 +2,9 @@ package main
 
 import (
 	"fmt"
+	"go/ast"
 	"go/types"
+	"strings"
 
 	"golang.org/x/tools/go/ssa"
 )
@@ -67,10 +69,11 @@ func (e *Env) loopInfo(fn *ssa.Function) *loopInfoT {
 // enterLoop handles arrival at a loop header.
 func (e *Env) enterLoop(fr *Frame, st *State, b, prev *ssa.BasicBlock, l *loop) []Out {
 	ct := e.Cx.forFunc(fr.fn)
-	var invs []Clause
+	var invs, conts []Clause
 	unroll := 0
 	if ct != nil {
 		invs = ct.Invariants[l.ordinal]
+		conts = ct.Continues[l.ordinal]
 		unroll = ct.Unroll[l.ordinal]
 	}
 	if unroll > 0 {
@@ -82,6 +85,24 @@ func (e *Env) enterLoop(fr *Frame, st *State, b, prev *ssa.BasicBlock, l *loop) 
 		if !fr.inLoop[b] {
 			e.fail("back edge to loop header without entry in %s", fr.fn)
 			return nil
+		}
+		// clauses that must hold whenever an iteration completes and the loop continues
+		for _, cl := range conts {
+			g := e.evalInvariant(st, fr, ct, cl)
+			e.oblige(st, "loop-continue", fmt.Sprintf("loop%d:%s", l.ordinal, cl.Label), g, cl.Text, b.Instrs[0].Pos())
+		}
+		// frame of the loop: components outside the function's modifies clause are unchanged by an iteration
+		for key, was := range fr.loopFrame {
+			if !strings.HasPrefix(key, fmt.Sprintf("%p|", b)) {
+				continue
+			}
+			parts := strings.SplitN(key, "|", 3)
+			var w int
+			fmt.Sscanf(parts[1], "%d", &w)
+			cur := e.readComp(st, w, parts[2])
+			if cur != was {
+				e.oblige(st, "frame", fmt.Sprintf("loop%d:%s-unchanged", l.ordinal, parts[2]), tEq(cur, was), "loop iteration changes a component outside the modifies clause", b.Instrs[0].Pos())
+			}
 		}
 		// inductive step
 		for _, inv := range invs {
@@ -96,8 +117,11 @@ func (e *Env) enterLoop(fr *Frame, st *State, b, prev *ssa.BasicBlock, l *loop) 
 		e.oblige(st, "inv-entry", fmt.Sprintf("loop%d:%s", l.ordinal, inv.Label), g, inv.Text, b.Instrs[0].Pos())
 	}
 	// havoc everything the loop may modify
-	e.havocLoop(fr, st, l)
+	e.havocLoop(fr, st, l, b)
 	fr.inLoop[b] = true
+	if fr.depth == 0 {
+		st.loopMark = len(st.calls)
+	}
 	for _, inv := range invs {
 		g := e.evalInvariant(st, fr, ct, inv)
 		st.assume(g)
@@ -140,7 +164,7 @@ func setFrUnroll(fr *Frame, b *ssa.BasicBlock, n int) {
 }
 
 // havocLoop forgets every value the loop body may change.
-func (e *Env) havocLoop(fr *Frame, st *State, l *loop) {
+func (e *Env) havocLoop(fr *Frame, st *State, l *loop, hdr *ssa.BasicBlock) {
 	// 1. header phis
 	for _, ins := range l.header.Instrs {
 		if ph, ok := ins.(*ssa.Phi); ok {
@@ -207,7 +231,17 @@ func (e *Env) havocLoop(fr *Frame, st *State, l *loop) {
 			if v.K == kCtx && !seen[v.World] {
 				seen[v.World] = true
 				if e.loopTouchesWorld(fr, l) {
-					e.havocWorld(st, v.World, "loop")
+					mod, all := e.topModifies()
+					for _, comp := range e.allComps() {
+						if all || mod[comp] || st.worlds[v.World].Parent >= 0 {
+							e.havocComp(st, v.World, comp, "loop")
+						} else {
+							if fr.loopFrame == nil {
+								fr.loopFrame = map[string]string{}
+							}
+							fr.loopFrame[fmt.Sprintf("%p|%d|%s", hdr, v.World, comp)] = e.readComp(st, v.World, comp)
+						}
+					}
 				}
 			}
 		}
@@ -227,6 +261,34 @@ func (e *Env) havocLoop(fr *Frame, st *State, l *loop) {
 			fr.regs[k] = Val{K: kIter, Typ: v.Typ, Iter: &nit}
 		}
 	}
+}
+
+// topModifies: components named in the modifies clauses of the function under verification.
+func (e *Env) topModifies() (map[string]bool, bool) {
+	mod := map[string]bool{}
+	if e.topFn == nil {
+		return mod, true
+	}
+	ct := e.Cx.forFunc(e.topFn)
+	if ct == nil {
+		return mod, true
+	}
+	for _, m := range ct.Modifies {
+		if call, ok := m.Expr.(*ast.CallExpr); ok {
+			if id, ok := call.Fun.(*ast.Ident); ok {
+				if id.Name == "world" {
+					return mod, true
+				}
+				if isComp(e, id.Name) {
+					mod[id.Name] = true
+					continue
+				}
+			}
+			// a store-handle expression: its component is unknown statically here
+			return mod, true
+		}
+	}
+	return mod, false
 }
 
 // loopTouchesWorld: does the loop contain a call that receives a context or a store?
